@@ -163,7 +163,7 @@ def unsqueezeMeta (d : Int) (bs : Shape) (names : Names) :
   let nd : Int := if d < 0 then n + d + 1 else d
   if nd > n ∨ nd < 0 then .error .runtime else
   let i := nd.toNat
-  let nm : Names := names.map (fun l => if l.isEmpty then l else l.insertIdx i none)
+  let nm : Names := names.map (fun l => l.insertIdx i none)   -- `if names is not None` (after fix)
   .ok (some (bs.insertIdx i 1, nm, .unsqueeze i))
 
 /-- base.py:flatten (after the range-check fix) -/
@@ -183,24 +183,25 @@ def flattenMeta (a b : Int) (bs : Shape) (names : Names) :
   let nm : Names := names.map (fun l => (l.take i ++ l.drop (j + 1)).insertIdx i none)
   .ok (some (bs', nm, .flatten i j))
 
-/-- base.py:unflatten (after the `-1` fix and the size-validation fix). The names are assigned *after* the leaf calls through
+/-- base.py:unflatten (after the `-1` fix). The names are assigned *after* the leaf calls through
 the `names` setter; `namesAfter` says whether that assignment happens (see `tdNode`). -/
 def unflattenMeta (d : Int) (sizes : List Int) (bs : Shape) (names : Names) :
     Except Err (Option (Shape × Names × LeafCall)) := do
   let nd ← maybeCorrectNegDim d bs.length
   let sz : List Int ← if sizes.any (· < 0) then (inferSizeImpl sizes (bs.getD nd 0)).map (·.map Int.ofNat) else pure sizes
-  if sz.isEmpty then throw .runtime
-  if prod (sz.map Int.toNat) ≠ bs.getD nd 0 then throw .runtime
+  -- NOTE: the sizes are not checked against `batch_size[dim]` here: only the leaf calls do (known finding
+  -- C02-view-leafless-unvalidated; the validating repair c50b003 was dropped because functional.py:pad_sequence
+  -- relies on `empty(recurse=True).reshape(new_shape)` of a leafless tensordict)
   let bs' := bs.take nd ++ sz.map Int.toNat ++ bs.drop (nd + 1)
   let nm : Names := names.map (fun l => l.take nd ++ List.replicate (sz.length - 1) none ++ l.drop nd)
   pure (some (bs', nm, .unflatten nd sz))
 
 /-- base.py:view → _td.py:_view, and _td.py:reshape (same arithmetic, different leaf call);
-after the numel fix and the size-validation fix -/
+after the numel fix -/
 def viewMeta (isView : Bool) (shape : List Int) (bs : Shape) (_names : Names) :
     Except Err (Option (Shape × Names × LeafCall)) := do
   let sh : Shape ← if shape.any (· < 0) then inferSizeImpl shape (prod bs) else pure (shape.map Int.toNat)
-  if prod sh ≠ prod bs then throw .runtime
+  -- NOTE: no `prod sh = prod bs` check: only the leaf calls validate (known finding C02-view-leafless-unvalidated)
   if sh = bs then pure none
   else pure (some (sh, none, if isView then .view sh bs.length else .reshape sh bs.length))
 
@@ -290,7 +291,8 @@ def opOfCall (c : LeafCall) (bs : Shape) : Op :=
 /-- `unflatten` assigns names through the public setter after building the result
 (_td.py: names.setter): all-`None` → erased; duplicates / wrong length → ValueError -/
 def namesSetter (names : List (Option String)) (n : Nat) : Except Err Names :=
-  if names.all (· == none) ∧ names.length = n then .ok none
+  -- `num_none == self.batch_dims` → erase (compares the number of `None`s with the batch rank, not the list length)
+  if (names.filter (· == none)).length = n then .ok none
   else if (names.filter (· != none)).eraseDups.length ≠ (names.filter (· != none)).length then .error .value
   else if names.length ≠ n then .error .value
   else .ok (some names)
